@@ -39,7 +39,7 @@ def parse_int(s, bits):
     return n if -2 ** (bits - 1) <= n < 2 ** (bits - 1) else None
 
 RT_PAIRS = {("SStr", "DStr"), ("SBool", "DBool"), ("SYesNo", "DYesNo"), ("SJaNee", "DJa"), ("SJoinWs", "DSplitWs"),
-            ("SJoinNl", "DSplitWs"), ("SJoinNl", "DSplitNl"), ("SJoinNl", "DLines")}
+            ("SJoinNl", "DSplitWs"), ("SJoinNl", "DSplitNl"), ("SJoinNl", "DSplitNlE"), ("SJoinNl", "DLines")}
 
 def convert(ser, de, s, table):
     """the field's deserialiser then serialiser on text s, written independently of the Coq model:
@@ -68,6 +68,7 @@ def convert(ser, de, s, table):
         if val is None: return ("err",)
     elif de == "DSplitWs": val = split_ws(s)
     elif de == "DSplitNl": val = s.split("\n")
+    elif de == "DSplitNlE": val = s.split("\n") if s != "" else []
     elif de == "DLines":
         val = rust_lines(s)
         rep = all("\r" not in l for l in val) and (not val or val[-1] != "")
@@ -125,10 +126,15 @@ class C16(Prop):
                   "both back-ends give the same result because everything factors through `items` (laws proved for the lossy list and for the "
                   "tree model of lossless::Paragraph::{get,set,remove,from_iter}). The struct tables are regenerated from the Rust sources on every "
                   "run and `ok_struct` (distinct keys, every serialiser/deserialiser pair a proven or assumed inverse pair, nothing unrecognised) is "
-                  "closed by vm_compute for every generated struct.")
-    level_note = ("Model: deb822-derive/src/lib.rs (expansion), src/convert.rs, Paragraph::{get,set,remove,FromIterator} of src/lossy.rs and "
-                  "src/lossless.rs, the serialize_with/deserialize_with functions of the shipped structs. External codecs (url, chrono, debversion, "
-                  "lossy Relations, workspace enum/composite types) are assumed inverse pairs, validated by the derive stream.")
+                  "closed by vm_compute for every generated struct. C16_shipped_closed is the headline: for the 17 generated structs the twelve "
+                  "codecs that are workspace code (Priority, MultiArch, YesNoForce, License, Signature, Forwarded, AppliedUpstream, DEP-3 Origin, "
+                  "ParsedVcs, lossy Relations, buildinfo Environment, sources Types) are instantiated with their Coq models (C18/C14 models, "
+                  "Environment/Types transcribed in DeriveExt.v) and their inverse law is PROVED on the owning cones' validity predicates; the "
+                  "premises that remain are exactly version_rt_law (debversion::Version) and other_rt_law (url::Url, Vec<Url>, chrono::NaiveDate).")
+    level_note = ("Model: deb822-derive/src/lib.rs (expansion; hand transcription whose source text — the 12 quote! templates, is_option, the "
+                  "dispatch lines — is pinned by translate/structs.py: C16_macro_pinned), src/convert.rs, Paragraph::{get,set,remove,FromIterator} of "
+                  "src/lossy.rs and src/lossless.rs, the serialize_with/deserialize_with functions of the shipped structs. Known class "
+                  "empty_list_split_newline (pending patch): the empty list of a join(\"\\n\")/split('\\n') field.")
     rule = ("derive: for each of the deriving structs (12 shipped + 5 test structs of src/convert.rs): every presence pattern of its first 4 "
             "optional fields, plus random values (strings incl. multi-line/Unicode/odd white space, booleans, integers at the type bounds, "
             "lists, pool values of each external codec incl. non-canonical spellings) built through from_paragraph, x prior paragraphs "
@@ -138,15 +144,26 @@ class C16(Prop):
             "split_whitespace/split/lines over white-space alphabets); non-trivial = an error case, or a value with an optional field present "
             "and a prior paragraph holding a foreign field")
     trusted = ["Coq 8.16.1 kernel",
-               "translate/structs.py (field tables, recognition of serialize_with/deserialize_with bodies and of Paragraph::set/remove variants; its fixtures run on every check)",
-               "hand transcription of the macro's quote! templates and of the codec functions, tied to the code by the derive / derive-codec streams",
+               "translate/structs.py (field tables, recognition of serialize_with/deserialize_with bodies and of Paragraph::set/remove variants, "
+               "textual pin of the macro's templates; its fixtures run on every check)",
+               "hand transcription of the derive macro (deb822-derive/src/lib.rs) into Derive.v: NO translator generates it; the translator only "
+               "pins the text it was transcribed from (a change makes C16_macro_pinned false), the derive/derive-malformed streams run the real "
+               "expansion of every struct against it",
+               "for the two ToDeb822-only test structs (no from_paragraph exists) the value is built, and the from= part of the record produced, "
+               "by generated harness code that imitates the macro's reader (FromStr per field, the two message formats); only their to/update "
+               "records exercise the real macro",
+               "hand transcriptions of the codec functions: Derive.v (std conversions), DeriveExt.v (serialize_env/deserialize_env, "
+               "serialize_types/deserialize_types), and the C18/C14 models it instantiates (Codecs.v, Vcs.v, EnumTab.v + Enums_gen.v, RelLossy.v), "
+               "all run against the real functions by the derive stream",
+               "the model of debversion 0.4.4 (RelLossy.dv_parse/dv_print) and the per-case tables for url/chrono in the runner (the theorems "
+               "do not depend on them: there these four codecs are parameters)",
                "tree model of the rowan operations used by lossless::Paragraph::{set,remove,from_iter} (splice one child, detach, append)",
-               "external codecs as assumed inverse pairs on the values the stream exercises",
                "extraction (ExtrOcamlBasic only), OCaml runner, Rust harness (generated per-struct glue), Python driver"]
-    assumptions = ["ext_rt_law: each external codec's parser inverts its printer on the values of its domain (url::Url, chrono::NaiveDate, "
-                   "debversion::Version, lossy Relations, Priority, MultiArch, License, Signature, YesNoForce, Forwarded, AppliedUpstream, "
-                   "ParsedVcs, environment map, repository-type set, URI list, DEP-3 origin)",
-                   "struct values are well typed (Rust's type checker) and in the representable domain of their codec pair (val_dom)",
+    assumptions = ["version_rt_law: <debversion::Version as FromStr> inverts its Display on the versions of vdom (codec 1; also inside lossy Relations)",
+                   "other_rt_law: the same for url::Url (codec 2), Vec<Url> = split_whitespace + Url (codec 14), chrono::NaiveDate with \"%Y-%m-%d\" (codec 15)",
+                   "struct values are well typed (Rust's type checker) and in the representable domain of their codec pair (val_dom; for the "
+                   "workspace codecs c_dom = the validity predicates of C18/C14: license_valid, signature_valid, forwarded_valid, commit_or_valid, "
+                   "pvcs_valid, porigin_valid, relations_ok, env_valid, the 4 canonical type sets, variant index below the table size)",
                    "inputs are valid UTF-8"]
 
     def __init__(self):
@@ -180,6 +197,7 @@ class C16(Prop):
             for e in fields[3].split(","):
                 i, raw, canon = e.split(":")
                 table[(int(i), unhex(raw))] = None if canon == "-" else unhex(canon)
+        cleared = set(unhex(k) for k in fields[5].split(",")) if len(fields) > 5 and fields[5] not in ("-", "") else set()
         # 1. what from_paragraph must return: the first field in declaration order that cannot be read
         expect = "OK"; printed = []; representable = True; unknown = False
         for f in st["fields"]:
@@ -202,6 +220,11 @@ class C16(Prop):
             return f"from_paragraph on a lossless paragraph: expected {self.show(expect)}, got {self.show(r.get('fromll'))}"
         if expect != "OK" or not st["to"]:
             return None
+        if cleared:
+            # the stream replaced these list fields by the empty list after from_paragraph: they are present and
+            # print as the empty text; an empty Vec is a value of the struct like any other, so it must come back
+            printed = [(f["key"], "" if f["key"] in cleared else dict(printed).get(f["key"])) for f in st["fields"]
+                       if f["key"] in cleared or f["key"] in dict(printed)]
         # 2. to_paragraph: present fields in declaration order, configured names and serialisers; same on both back-ends
         to = dec_items(r.get("to", ""))
         if [k for k, _ in to] != [k for k, _ in printed]:
@@ -284,11 +307,11 @@ class C16(Prop):
         if stream == "derive-codec":
             return None
         src = dec_items(fields[1])
-        if fields[0] == "apt_sources_Repository":
-            # the only failures allowed here: the value does not come back
-            if "!= v" in why or "does not read back as the value" in why:
-                if first(src, "PDiffs") in ("yes", "no"):
-                    return "pdiffs_default_serializer"
+        st = self.structs().get(fields[0])
+        if st and len(fields) > 5 and fields[5] not in ("-", "") and ("!= v" in why or "does not read back as the value" in why):
+            cleared = set(unhex(k) for k in fields[5].split(","))
+            if any(f["key"] in cleared and f["ser"] == "SJoinNl" and f["de"] == "DSplitNl" for f in st["fields"]):
+                return "empty_list_split_newline"
         return None
 
     def neighbours(self, stream, fields):
@@ -298,13 +321,15 @@ class C16(Prop):
         items = fields[1].split(",") if fields[1] != "-" else []
         for i in range(len(items)):
             rest = items[:i] + items[i+1:]
-            out.append([fields[0], ",".join(rest) if rest else "-", fields[2], fields[3], fields[4]])
-            out.append([fields[0], ",".join(rest) if rest else "-", "-", fields[3], fields[4]])
-        out.append([fields[0], fields[1], "-", fields[3], fields[4]])
+            out.append([fields[0], ",".join(rest) if rest else "-", fields[2], fields[3], fields[4]] + fields[5:])
+            out.append([fields[0], ",".join(rest) if rest else "-", "-", fields[3], fields[4]] + fields[5:])
+        out.append([fields[0], fields[1], "-", fields[3], fields[4]] + fields[5:])
+        if len(fields) > 5 and fields[5] != "-":
+            out.append(fields[:5] + ["-"])
         if fields[2] != "-":
             lines = re.findall(r"[^\n]*\n|[^\n]+$", unhex(fields[2]))
             for i in range(len(lines)):
-                out.append([fields[0], fields[1], hexs("".join(lines[:i] + lines[i+1:])) if len(lines) > 1 else "-", fields[3], fields[4]])
+                out.append([fields[0], fields[1], hexs("".join(lines[:i] + lines[i+1:])) if len(lines) > 1 else "-", fields[3], fields[4]] + fields[5:])
         return out[:400]
 
     def shrink_field(self, stream):
